@@ -1,6 +1,6 @@
 """Pool discipline rules P8..P16 and the E-WAKER lint (DESIGN.md 4.2, 4.4)."""
 from core import (norm, L_call, L_variant, arms, assigns_to_return, const_of, CallSite, AbsPaths, sig,
-                  closure_arg_of, is_transparent)
+                  closure_arg_of, is_transparent, L_opt)
 from mir import op_place, place_str, op_str
 
 OPT_TAKE = ("std::option::Option::take", "core::option::Option::take")
@@ -691,6 +691,19 @@ def P14(ctx, facts):
         if k == "stmt" and x["r"].get("v") == "Some":
             ok, w = ad.guarded(b, lambda lab: lab.kind == "variant" and lab.variants == {"ConnectingWithDelayDrop"})
             ctx.check(ok, "as_delayed|Some-only-delayed", "as_delayed returns Some only for the delayed-drop state", "Some returned for another state", ad.where(b), ad.path_desc(w))
+    # converse: a delayed-drop checkout that still owns its connector is always continued - None is returned only for
+    # another state or when the connector is gone (no further condition, e.g. on the connector's progress, may veto it)
+    conn = lambda rr: any(x.kind == "arg" and "inner" in x.desc for x in rr) or any(x.kind == "call" and x.site.matches(r"::project$") for x in rr)
+    none_edge = L_opt(ad, False, conn)
+    n_none = 0
+    for (k, b, x) in rets:
+        if k == "stmt" and x["r"].get("v") == "None":
+            n_none += 1
+            ok, w = ad.guarded(b, lambda lab: (lab.kind == "variant" and "ConnectingWithDelayDrop" not in lab.variants and "CheckoutConnecting" in (lab.adt or "")) or none_edge(lab))
+            ctx.check(ok, "as_delayed|None-only-if-nothing-to-continue", "as_delayed declines only when the state is not delayed-drop or the connector is already gone",
+                      "as_delayed can decline although the checkout still owns a connector in the delayed-drop state: the attempt is cancelled instead of finishing in the background",
+                      ad.where(b), ad.path_desc(w))
+    ctx.floor("as_delayed|None-returns", n_none, 1, "None returns of as_delayed")
 
 
 # ------------------------------------------------------------------ P15
